@@ -155,6 +155,14 @@ def gen_perm_graph(rng, cap=1500, multiword=False):
     raise RuntimeError("zoo: could not generate a small permutation graph")
 
 
+def gen_shear_matrix_graph(rng):
+    """SMALL central state, LARGE reachable entries (beyond 8 / 16 / 31 bits): shears x -> x + a*y modulo m on 2-vectors or 2x2 states; small orbits."""
+    mod, a = rng.choice([(200, 37), (251, 100), (300, 7), (256, 129), (70000, 17500), (2**20, 2**18), (65536, 32769), (2**31, 2**29)])
+    mats = [[[1, a], [0, 1]]] + ([[[1, mod - a], [0, 1]]] if rng.random() < 0.6 else []) + ([[[1, 0], [0, mod - 1]]] if rng.random() < 0.3 else [])
+    m = rng.choice([1, 1, 2])
+    return {"kind": "matrix", "mats": mats, "modulo": mod, "n": 2, "m": m, "central": [0, 1] if m == 1 else [1, 0, 0, 1]}
+
+
 def gen_matrix_graph(rng, cap=1500):
     for _ in range(500):
         n = rng.randint(1, 3)
@@ -204,6 +212,11 @@ def gen_matrix_graph(rng, cap=1500):
                 mats.append([[v % mod for v in row] for row in M])
             m = rng.choice([1, 1, 2])
             central = [rng.choice([mod - 1, mod - 2, mod - 3, mod - 1, 2, rng.randrange(mod)]) for _ in range(n * m)]
+        elif r < 0.85:
+            # SMALL central state, LARGE reachable entries (beyond 8 / 16 bits): shears x -> x + a*y modulo m; what a search stores or returns must hold
+            # every reachable entry, not only the symbols of the central state
+            sh = gen_shear_matrix_graph(rng)
+            mod, n, m, mats, central = sh["modulo"], sh["n"], sh["m"], sh["mats"], sh["central"]
         elif r < 0.88:
             mod = rng.choice([2**31 - 1, 2**31])
             k = rng.randint(1, 2)
